@@ -188,3 +188,48 @@ Theorem c07_wire_nontrivial_v5 :
      Some (P5Publish (mkPub5 Q1 1 3 3 None)); None; Some (P5Publish (mkPub5 Q1 1 4 4 None)); Some (P5Subscribe 1 1)] /\
   option_map (fun s => (s5_max s, s5_max_limit s, s5_inflight s, s5_collision s)) (Client.Inv5.run5 (init5 2 false) h) = Some (1, 2, 1, None).
 Proof. exact wire5_nontrivial. Qed.
+
+(** ---- the v5 event loop (Client/Loop5.v): the loop-level statements of C07, ported *)
+From Rumqtt Require Client.Loop5 Client.Loop5Proofs.
+
+Theorem c07_loop_inv_v5 : forall max manual h, 1 <= max -> max <= 65535 ->
+  Client.Loop5Proofs.k7_5 (Client.Loop5.linit5 max manual) h = false ->
+  exists l, Client.Loop5.lrun5 (Client.Loop5.linit5 max manual) h = Some l /\ Inv5 (Client.Loop5.st5 l).
+Proof. exact Client.Loop5Proofs.lrun5_inv_init. Qed.
+
+Theorem c07_take_guard_v5 : forall l,
+  Client.Loop5.connected5 l = true -> s5_events (Client.Loop5.st5 l) = [] ->
+  (Client.Loop5.pending5 l <> [] \/ Client.Loop5.chan5 l <> []) ->
+  (Client.Loop5.take_enabled5 l = true <->
+   s5_inflight (Client.Loop5.st5 l) < s5_max (Client.Loop5.st5 l) /\ s5_collision (Client.Loop5.st5 l) = None).
+Proof. exact Client.Loop5Proofs.take_guard5. Qed.
+
+Theorem c07_receive_max_renegotiated_v5 : forall l sp rm tam, Client.Loop5.connected5 l = false -> rm <> Some 0 ->
+  exists l', Client.Loop5.lstep5 l (Client.Loop5.Reconnect5 sp rm tam) = Client.Loop5.Stepped5 l' /\
+    Client.Loop5.pending5 l' = (if sp then Client.Loop5.pending5 l else []) /\ Client.Loop5.chan5 l' = Client.Loop5.chan5 l /\
+    Client.Loop5.wire5 l' = [] /\ Client.Loop5.connected5 l' = true /\ Client.Loop5.yielded5 l' = Client.Loop5.yielded5 l /\
+    s5_pub (Client.Loop5.st5 l') = s5_pub (Client.Loop5.st5 l) /\ s5_rel (Client.Loop5.st5 l') = s5_rel (Client.Loop5.st5 l) /\
+    s5_collision (Client.Loop5.st5 l') = s5_collision (Client.Loop5.st5 l) /\
+    s5_inflight (Client.Loop5.st5 l') = s5_inflight (Client.Loop5.st5 l) /\
+    s5_events (Client.Loop5.st5 l') = s5_events (Client.Loop5.st5 l) ++ [Ev5In (P5ConnAck sp 0 rm tam)] /\
+    s5_max (Client.Loop5.st5 l') = match rm with Some m => N.min m (s5_max_limit (Client.Loop5.st5 l)) | None => s5_max (Client.Loop5.st5 l) end.
+Proof. exact Client.Loop5Proofs.reconnect5_spec. Qed.
+
+Theorem c07_connack_refused_keeps_connection_v5 : forall l sp tam, Client.Loop5.connected5 l = false ->
+  exists l', Client.Loop5.lstep5 l (Client.Loop5.Reconnect5 sp (Some 0) tam) = Client.Loop5.Failed5 l' (Client.Loop5.LE5State (E5ConnFail 130)) /\
+    Client.Loop5.connected5 l' = true /\ Client.Loop5.pending5 l' = (if sp then Client.Loop5.pending5 l else []) /\
+    s5_max (Client.Loop5.st5 l') = s5_max (Client.Loop5.st5 l) /\
+    s5_pub (Client.Loop5.st5 l') = s5_pub (Client.Loop5.st5 l) /\ s5_rel (Client.Loop5.st5 l') = s5_rel (Client.Loop5.st5 l) /\
+    s5_collision (Client.Loop5.st5 l') = s5_collision (Client.Loop5.st5 l).
+Proof. exact Client.Loop5Proofs.reconnect5_refused. Qed.
+
+Theorem c07_f7_loop_refuted_before_fix_v5 :
+  Client.Loop5Proofs.k7_5_orig (Client.Loop5.linit5 1 false) Client.Loop5Proofs.f7_loop5_history = true /\
+  option_map (fun l => (held5 (Client.Loop5.st5 l), Client.Loop5.pending5 l, Client.Loop5.chan5 l, Client.Loop5.wire5 l))
+    (Client.Loop5.lrun5_orig (Client.Loop5.linit5 1 false) Client.Loop5Proofs.f7_loop5_history)
+  = Some ([R5Publish (mkPub5 Q1 1 1 1 None); R5Publish (mkPub5 Q1 1 3 3 None)], [], [], [P5Publish (mkPub5 Q1 1 1 1 None)])
+  /\ Client.Loop5Proofs.k7_5 (Client.Loop5.linit5 1 false) Client.Loop5Proofs.f7_loop5_history = false /\
+  option_map (fun l => (held5 (Client.Loop5.st5 l), Client.Loop5.pending5 l, Client.Loop5.chan5 l, Client.Loop5.wire5 l))
+    (Client.Loop5.lrun5 (Client.Loop5.linit5 1 false) Client.Loop5Proofs.f7_loop5_history)
+  = Some ([R5Publish (mkPub5 Q1 1 1 1 None)], [Client.Loop5Proofs.pq1_5 2; Client.Loop5Proofs.pq1_5 3], [], [P5Publish (mkPub5 Q1 1 1 1 None)]).
+Proof. exact Client.Loop5Proofs.f7_loop5_witness. Qed.
